@@ -99,11 +99,21 @@ func c02AnalysedSpace(depth int) *core.Space {
 	name := "analysed-text-histories"
 	return &core.Space{
 		Name: name, N: int64(len(hs)), Chunk: 200, Describe: desc, RecycleEvery: 40, PerCaseTimeoutS: 30,
-		Setup: func() {
-			c02SharedServer()
-		},
 		Run: func(i int64, r *core.Result) {
-			srv := c02Srv
+			// a fresh server per history: what the server does on a save depends on whether it has kept the text of an
+			// earlier save, so histories must not inherit one another's state
+			if c02Srv != nil {
+				c02Srv.Close()
+				c02Srv = nil
+			}
+			root0 := drv.NewWorkspace(map[string]string{"a.lua": c02DiskText})
+			defer drv.RemoveWorkspace(root0)
+			srv, err0 := drv.Start(root0, drv.Options{})
+			if err0 != nil {
+				r.Fail("analysed-text-histories", i, "server-start-failed", fmt.Sprint(i), map[string]interface{}{"error": err0.Error()})
+				return
+			}
+			defer srv.Close()
 			hist := hs[i]
 			r.Evaluated++
 			r.Nontrivial++
@@ -298,5 +308,46 @@ func c02HandlerBatchSpace(docs []string) *core.Space {
 			r.States++
 			r.Outcome("batch-applied:" + kinds(e1) + "-then-" + kinds(e2))
 		},
+	}
+}
+
+// C02Debug replays one analysed-text history given as words (`vcheck c02 'open:g1 = 1\n' 'full:' save close ...`) and
+// prints the outline after every event. Maintainer tool.
+func C02Debug(args []string) {
+	root := drv.NewWorkspace(map[string]string{"a.lua": c02DiskText})
+	defer drv.RemoveWorkspace(root)
+	s, err := drv.Start(root, drv.Options{})
+	if err != nil {
+		fmt.Println(err)
+		return
+	}
+	defer s.Close()
+	cur := c02State{}
+	for _, w := range args {
+		kind, arg := w, ""
+		if k := strings.Index(w, ":"); k >= 0 {
+			kind, arg = w[:k], strings.ReplaceAll(w[k+1:], `\n`, "\n")
+		}
+		ev := c02Event{Kind: kind, Text: arg}
+		if kind == "save" {
+			ev.Text = cur.text
+			os.WriteFile(root+"/a.lua", []byte(ev.Text), 0o644)
+		}
+		if kind == "ins" {
+			// ins:<line>:<text>
+			var ln int
+			parts := strings.SplitN(arg, ":", 2)
+			fmt.Sscan(parts[0], &ln)
+			ev = c02Event{Kind: "inc", Ed: []c02Edit{{S: textref.Pos{Line: ln}, E: textref.Pos{Line: ln}, Ins: parts[1]}}}
+		}
+		next, _ := refStep(cur, ev)
+		c02Send(s, ev)
+		cur = next
+		syms, _ := s.DocSymbols("a.lua")
+		var got []string
+		for _, sy := range syms {
+			got = append(got, sy.Name)
+		}
+		fmt.Printf("%-30q buffer=%q outline=%v\n", w, cur.text, got)
 	}
 }
